@@ -132,6 +132,14 @@ func Open(path string, freeList *freelist.FreeList, fileCache *filecache.FileCac
 	if err != nil {
 		return nil, err
 	}
+	// A crash while flushing can leave a partially written record at the end
+	// of the file. Remove it, since the positions given to new records and the
+	// garbage collector both rely on the file being a sequence of complete
+	// records.
+	if err = truncatePartialRecord(file); err != nil {
+		file.Close()
+		return nil, err
+	}
 	length, err := file.Seek(0, io.SeekEnd)
 	if err != nil {
 		return nil, err
@@ -155,6 +163,34 @@ func Open(path string, freeList *freelist.FreeList, fileCache *filecache.FileCac
 	}
 
 	return mp, nil
+}
+
+// truncatePartialRecord removes an incomplete record from the end of a primary
+// file.
+func truncatePartialRecord(file *os.File) error {
+	fi, err := file.Stat()
+	if err != nil {
+		return err
+	}
+	fileSize := fi.Size()
+	sizeBuf := make([]byte, sizePrefixSize)
+	var pos int64
+	for pos+sizePrefixSize <= fileSize {
+		if _, err = file.ReadAt(sizeBuf, pos); err != nil {
+			return err
+		}
+		size := binary.LittleEndian.Uint32(sizeBuf) &^ deletedBit
+		next := pos + sizePrefixSize + int64(size)
+		if next > fileSize {
+			break
+		}
+		pos = next
+	}
+	if pos == fileSize {
+		return nil
+	}
+	log.Warnw("Removing partially written record from end of primary file", "file", file.Name(), "at", pos, "bytes", fileSize-pos)
+	return file.Truncate(pos)
 }
 
 func (mp *MultihashPrimary) StartGC(freeList *freelist.FreeList, interval, timeLimit time.Duration, updateIndex UpdateIndexFunc) {
@@ -296,12 +332,14 @@ func (cp *MultihashPrimary) flushBlock(key []byte, value []byte) (types.Work, er
 			return 0, fmt.Errorf("creating primary file overwrites existing, check file size, gc and path (maxFileSize=%d) (path=%s)", cp.maxFileSize, primaryPath)
 		}
 
+		// Finish writing the current file before creating the next one, so that
+		// an incomplete record can only ever be at the end of the last file.
+		if err := cp.writer.Flush(); err != nil {
+			return 0, fmt.Errorf("cannot write to primary file %s: %w", cp.file.Name(), err)
+		}
 		file, err := os.OpenFile(primaryPath, os.O_RDWR|os.O_APPEND|os.O_CREATE, 0o644)
 		if err != nil {
 			return 0, fmt.Errorf("cannot open new primary file %s: %w", primaryPath, err)
-		}
-		if err = cp.writer.Flush(); err != nil {
-			return 0, fmt.Errorf("cannot write to primary file %s: %w", cp.file.Name(), err)
 		}
 
 		cp.file.Close()
